@@ -42,14 +42,16 @@ add('C10', 'exploration', 'runtime monitoring: recorded metadata at every node v
 add('C05', 'exploration', 'runtime monitoring: instrumented RefCounter + holder multiset of the reference model at quiescent points',
     'Every input carries an observed RefCounter; after every synchronous emit (and after the bounded settle of async runs) '
     'each count is compared with the number of legitimate holders computed by the reference interpreter; signal given iff '
-    'no holder; never negative; never rising after zero.',
+    'no holder; never negative; never rising after zero. Async runs also stop / restart map_async nodes from outside while elements '
+    'are under way; a real-thread family (child process) feeds and flushes a collect() on a blocking pipeline from the user thread.',
     'Legitimate holders are those of DESIGN.md Appendix A; counters attached only where the entry stream has a child.',
     'DESIGN.md#C05')
 add('C16', 'fault_enumeration', 'runtime monitoring with fault injection: every single user-function invocation fails in its own run',
     'For small generated programs every invocation of every user function (incl. key and sink functions) is failed in a '
     'separate run (exhaustive over single faults) plus random multi-fault sets, in plain, loop-thread (sync()) and '
     'asynchronous modes; oracle: identity of the exception at the caller, state of the failing node vs reference node on '
-    'the non-failing inputs, no completion signal for failed elements.',
+    'the non-failing inputs, no completion signal for failed elements; bystander nodes keep their state (zip_latest keeps its '
+    'waiting elements); a falsy exception class; a fault-free run that raises is a verdict.',
     'Directly connected nodes only; reference node semantics from Appendix A.', 'DESIGN.md#C16')
 
 add('C02', 'exploration', 'runtime monitoring on a virtual-time event loop: local per-node oracle + edge oracle over the recorded history',
@@ -71,7 +73,9 @@ add('C03', 'exploration', 'runtime monitoring on a virtual-time loop + real thre
 add('C04', 'exploration', 'runtime monitoring: instrumented RefCounter trigger instants vs every later event on derived data',
     'Async programs over every data-holding node with slow and failing consumers; for each element the first event on '
     'derived data after its completion signal (late delivery, consumer start/end, computation) names the culprit node; '
-    'failed elements must never signal.',
+    'failed elements must never signal. The recorder names the node that handed data on without the metadata it had received; a '
+    'synchronous family (collect, feedback edges, partition ...) checks that no signal is given while the reference semantics '
+    'still has the element buffered.',
     'Derivation tracked by metadata identity plus call-stack inheritance for metadata-less flatten pieces.', 'DESIGN.md#C04')
 
 add('C08', 'exploration', 'runtime monitoring on a virtual-time loop: conservation/order/timer/deadline oracle over the node history',
@@ -112,7 +116,10 @@ add('C18', 'exploration', 'runtime monitoring on a virtual-time loop: start/stop
     'back-to-back, for five source kinds; run()/_run() of the source instance are wrapped from the harness so that every '
     'polling cycle is attributed to the event-loop task performing it; oracle: an older loop never begins a cycle after a '
     'newer one has, no cycle begins while stopped, no more runs than effective starts, items strictly increasing, '
-    'from_iterable exact and waiting for downstream.',
+    'from_iterable exact and waiting for downstream (an iterator never skips an item); a start() on a stopped source takes effect '
+    'within two poll intervals, also after a consumer failure ended the loop; histories driven from the far end of '
+    'source->map_async->sink; PeriodicDataFrame on the virtual loop; real-socket families for from_process and a keep-alive '
+    'client of from_http_server; the Kafka sources on the in-memory client.',
     'Virtual clock; real temporary files for the file sources.', 'DESIGN.md#C18')
 
 add('C17', 'exploration', 'runtime monitoring on a virtual-time loop with real files: emitted records vs written text (exactly-once, order, tail held back)',
@@ -127,15 +134,19 @@ add('C09', 'fault_enumeration', 'runtime monitoring with crash injection: real F
     'range algebra per partition, exact batch content, and at every commit (the only points where durable state changes) '
     'all messages below the committed offset must have been completely processed; the process is crashed after sampled '
     '(quick) or every (thorough) recorded event, restarted with the same group id, and every message must be completed '
-    'before the crash or re-delivered after it.',
-    'Fidelity of the in-memory client for the calls used; non-empty message values; per-partition in-order completion '
+    'before the crash or re-delivered after it. Histories include message-less offsets, empty-valued messages and tombstones, '
+    'transient failures of committed()/watermark look-ups/fetches, error events, alias spellings of the reset policy, partitions '
+    'added at run time, and a consumer that pauses the source inside a poll round.',
+    'Fidelity of the in-memory client for the calls used (len(message) == len(value)); per-partition in-order completion '
     'enforced by the harness consumer (the property\'s proviso).', 'DESIGN.md#C09')
 
 add('C20', 'exploration', 'runtime monitoring: differential twin execution (local vs scatter...gather on an in-process dask cluster) with perturbed task durations',
     'The same generated chain of operations runs as a local pipeline and with scatter()/gather() around it on an '
     'in-process distributed cluster; mapped functions sleep a seeded 0-4 ms so that tasks finish out of order on the '
     'worker threads; sink sequences must be equal in order and the instrumented reference counters of the inputs must end '
-    'with the same counts and completion signals.',
+    'with the same counts and completion signals; in the Dask twin an input is signalled complete only after the consumers have '
+    'finished with its result, an awaited emit returns only when they have (chains without a buffer), and elements leave a Dask '
+    'rate_limit at least an interval apart.',
     'Real scheduler and real time: interleavings are whatever the perturbation produces; watchdog => inconclusive.',
     'DESIGN.md#C20')
 
